@@ -176,6 +176,78 @@ depth2!(c12_typestate_biremote, Stream::accept_bi().upgrade(), Role::BiRemote);
 // @oracle SETTINGS and WT signal => H3_FRAME_UNEXPECTED; invalid id => H3_ID_ERROR; > 4096 => H3_EXCESSIVE_LOAD; DATA/HEADERS/GREASE delivered
 depth2!(c12_typestate_bilocal, Stream::open_bi().upgrade(), Role::BiLocal);
 
+macro_rules! depth2_async {
+    ($name:ident, $mk:expr, $role:expr) => {
+        #[kani::proof]
+        #[kani::unwind(8)]
+        #[kani::stub(<wtransport_proto::bytes::IoReadError as std::convert::From<std::io::Error>>::from, crate::common::io_read_err_stub)]
+        fn $name() {
+            use wtransport_proto::stream::IoReadError;
+            let s1: u8 = kani::any();
+            let s2: u8 = kani::any();
+            kani::assume(s1 < 7 && s2 < 7);
+            let pb: u8 = kani::any();
+            let mut out = [0u8; 8];
+            let p1 = put_frame(s1, &mut out, 0, pb);
+            let p2 = put_frame(s2, &mut out, p1, pb);
+            let mut st = $mk;
+            let mut rd = ByteReader::<8> { data: out, len: p2, off: 0 };
+            let ids = [0u64, 1, 4, 0x41, 0x41, 0x21, 0];
+            let r1 = poll_once(st.read_frame_async(&mut rd)).unwrap();
+            match (r1, table($role, s1, true)) {
+                (Ok(f), Ok(())) => {
+                    assert!(kind_id(f.kind()) == ids[s1 as usize], "first frame mis-identified (async)");
+                    assert!(rd.off == p1, "first frame not consumed exactly (async)");
+                    core::mem::forget(f);
+                    let r2 = poll_once(st.read_frame_async(&mut rd)).unwrap();
+                    match (r2, table($role, s2, false)) {
+                        (Ok(g), Ok(())) => {
+                            assert!(kind_id(g.kind()) == ids[s2 as usize], "second frame mis-identified (async)");
+                            assert!(rd.off == p2);
+                            kani::cover!(s1 == 5 && s2 == 0, "GREASE then DATA (async)");
+                            core::mem::forget(g);
+                        }
+                        (Err(IoReadError::H3(e)), Err(code)) => {
+                            assert!(e.to_code().into_inner() == code, "second frame: wrong error code (async)");
+                            kani::cover!(s1 == 5 && s2 == 3, "WT signal after GREASE refused (async)");
+                            kani::cover!(s2 == 6, "oversize second frame (async)");
+                        }
+                        (Ok(_), Err(_)) => assert!(false, "prohibited second frame accepted by the async reader"),
+                        _ => assert!(false, "permitted second frame rejected by the async reader"),
+                    }
+                }
+                (Err(IoReadError::H3(e)), Err(code)) => {
+                    assert!(e.to_code().into_inner() == code, "first frame: wrong error code (async)");
+                    kani::cover!(s1 == 4, "invalid session id (async)");
+                }
+                (Ok(_), Err(_)) => assert!(false, "prohibited first frame accepted by the async reader"),
+                _ => assert!(false, "permitted first frame rejected by the async reader"),
+            }
+        }
+    };
+}
+
+// @h props=C12,C15 tier=quick t=2400 mem=20 sub=typestate-async-biremote covers=any
+// @fn wtransport-proto/src/stream.rs StreamBiRemoteH3::{read_frame_async,validate_frame}; wtransport-proto/src/frame.rs Frame::read_async
+// @bound peer-opened request stream read through the ASYNC reader (the path the driver uses); all 49 sequences of two frames over the 7-symbol alphabet, byte-wise delivery
+// @oracle same reference table as c12_typestate_biremote; in particular a WT signal is valid only as the very first delivered frame (GREASE before it counts), otherwise H3_FRAME_ERROR
+// @assume From<io::Error> stub; model source never errors / never Pending (L1 covers chunkings)
+depth2_async!(c12_typestate_async_biremote, Stream::accept_bi().upgrade(), Role::BiRemote);
+
+// @h props=C12,C15 tier=quick t=2400 mem=20 sub=typestate-async-control covers=any
+// @fn wtransport-proto/src/stream.rs StreamUniRemoteH3::{read_frame_async,validate_frame}
+// @bound control stream, async reader; as c12_typestate_async_biremote
+// @oracle same reference table as c12_typestate_control
+// @assume as c12_typestate_async_biremote
+depth2_async!(c12_typestate_async_control, control_stream(), Role::Control);
+
+// @h props=C12,C15 tier=thorough t=2400 mem=20 sub=typestate-async-bilocal covers=any
+// @fn wtransport-proto/src/stream.rs StreamBiLocalH3::{read_frame_async,validate_frame}
+// @bound locally-opened request stream, async reader; as c12_typestate_async_biremote
+// @oracle same reference table as c12_typestate_bilocal
+// @assume as c12_typestate_async_biremote
+depth2_async!(c12_typestate_async_bilocal, Stream::open_bi().upgrade(), Role::BiLocal);
+
 // @h props=C12,C16 tier=quick t=300 sub=error-code-registry
 // @fn wtransport-proto/src/error.rs ErrorCode::to_code
 // @bound all 15 error codes
